@@ -118,6 +118,41 @@ def tag_to_class(ctx):
               "the class is looked up by the node's own tag", key='R-TAB.tag-class|by-tag')
 
 
+def _string_content_elements(ctx):
+    """names of the partwise elements whose text content derives from xs:string without a whitespace-collapsing step (xs:token, xs:NMTOKEN, ...)"""
+    sc = ctx.schema
+    simple = dict(sc.builtin_simple_types)
+    simple.update(sc.simple_types)
+    cts = sc.all_complex_types()
+
+    def primitive(tn, depth=0):
+        tn = (tn or '').split(':')[-1]
+        if depth > 12 or not tn:
+            return None
+        if tn == 'string':
+            return 'string'
+        if tn in ('token', 'normalizedString', 'NMTOKEN', 'Name', 'NCName', 'ID', 'IDREF', 'language', 'decimal', 'integer', 'positiveInteger', 'nonNegativeInteger',
+                  'date', 'anyURI', 'boolean', 'float', 'double'):
+            return 'collapsing'
+        st = simple.get(tn)
+        if st is not None:
+            if set(st.facet_tags()) & {'enumeration', 'pattern'}:
+                return 'collapsing'          # literals / patterns of the schema leave no room for surrounding blanks
+            if st.union_members:
+                kinds = {primitive(m_, depth + 1) for m_ in st.union_members}
+                return 'string' if 'string' in kinds else 'collapsing'
+            return primitive(st.base, depth + 1) if st.base else None
+        ct = cts.get(tn)
+        if ct is not None and getattr(ct, 'simple_base', None):
+            return primitive(ct.simple_base, depth + 1)
+        return None
+    out = []
+    for d in sc.partwise_decls():
+        if d.type and primitive(d.type) == "string" and d.name not in out:
+            out.append(d.name)
+    return sorted(out)
+
+
 def text_only_stripped(ctx):
     sm, res = ctx.sm, ctx.res
     res.rule('R-TEXT', "the only transformation between node.text and the element value is removal of surrounding whitespace (and the numeric conversions of the ladder)")
@@ -129,6 +164,12 @@ def text_only_stripped(ctx):
     vals = sorted({unparse(n.ast.value) for n in defs})
     ok = set(vals) <= {f"{node_p}.text.strip()", f"{node_p}.text", "''"} and any('text' in v for v in vals)
     res.check(ok, 'R-TEXT', conv.fq, "text = node.text.strip() (or '' when absent)", fail_detail=str(vals), key='R-TEXT|strip-only')
+    # stripping is the schema's own whitespace handling for token-like and numeric content, not for xs:string content (whiteSpace=preserve)
+    if any('.strip()' in v for v in vals):
+        preserving = _string_content_elements(ctx)
+        res.check(not preserving, 'R-TEXT', conv.fq, "surrounding whitespace is removed only from content whose type collapses whitespace anyway",
+                  fail_detail=f"{len(preserving)} element(s) have xs:string-based content (whiteSpace=preserve), e.g. {preserving[:6]}: leading / trailing blanks and line breaks "
+                              "of their text are lost on reading although the library accepted and wrote them", key='R-TEXT|strip-of-string-content')
     # the stripped text is taken exactly when there is text, the empty default exactly when there is none
     for n in defs:
         v = unparse(n.ast.value)
